@@ -72,7 +72,7 @@ try:
     if "--confirm" in flags:
         conf = {}
         meta = json.load(open(os.path.join(d, "meta.json")))
-        tgt = os.path.join("/tmp/seedwt", "target-confirm")
+        tgt = os.path.join("/tmp/seedwt", "target-confirm" + os.environ.get("SEED_LANE", "0"))
         e = dict(ENV, CARGO_TARGET_DIR=tgt)
         t = sh(BASELINE, cwd=wt, timeout=3000, env=e)
         m = re.search(r"(\d+) tests run: (\d+) passed", t.stdout + t.stderr)
@@ -104,8 +104,9 @@ try:
             s = open(p).read().replace('path = "/repo"', f'path = "{wt}"')
             open(p, "w").write(s)
         # share compiled third-party dependencies between shadows
-        os.makedirs("/tmp/verif-shadow/target", exist_ok=True)
-        os.symlink("/tmp/verif-shadow/target", os.path.join(shadow, "harness", "target"))
+        lane = os.environ.get("SEED_LANE", "0")
+        os.makedirs(f"/tmp/verif-shadow/target{lane}", exist_ok=True)
+        os.symlink(f"/tmp/verif-shadow/target{lane}", os.path.join(shadow, "harness", "target"))
         res = run_checks(shadow, {"C19_REPO": wt, "C20_REPO": wt})
         json.dump(res, open(os.path.join(d, f"result-{tier}.json"), "w"), indent=1)
 finally:
